@@ -31,4 +31,4 @@ finally:
     subprocess.run(["git", "-C", "/repo", "checkout", "--", "."], check=True)
     subprocess.run(["git", "-C", "/repo", "clean", "-fdq", "--", "seed_demo_test.go"], check=False)
 json.dump(res, open(os.path.join(d, "result-%s-%s.json" % (pid, tier)), "w"), indent=1)
-print(json.dumps(res, indent=1)[:3000])
+print("%s vs %s/%s: detected=%s exit=%s %ss | %s | %s" % (name, pid, tier, res["detected"], res["exit"], res["wall_s"], res["violation_line"], json.dumps(res["replay"])[:400]))
